@@ -263,4 +263,78 @@ Section Instance.
     destruct (fp_contentChecksum p =? 0) eqn:E; cbn [negb Z.eqb Pos.eqb]; [reflexivity|].
     rewrite writeLE32_eq. rewrite Hxxh by (cbn; rewrite E; reflexivity). reflexivity.
   Qed.
+
+  (* ---- frame_contract, for contents below 2^64 bytes ---- *)
+  Definition frame_contract_b bdec skipcrc (LZ4F_frame : lz4f_prefs -> list Z -> list Z -> list Z) : Prop :=
+    forall p dict content, valid_prefs p content -> lenZ content < U64_MAX1 ->
+      frame_decode bdec skipcrc dict (LZ4F_frame p dict content) = Some (content, []).
+
+  Lemma begin_out_cd c0 po cdict : prefs_opt_ok po ->
+    exists hdr c1, compressBegin_internal c0 None cdict po = (Out hdr, c1).
+  Proof.
+    intros Hpo. unfold compressBegin_internal.
+    set (p0 := match po with Some p => p | None => prefs_null end).
+    assert (Hp0 : prefs_ok p0) by (unfold p0; destruct po; [exact Hpo|exact prefs_null_ok]).
+    destruct Hp0 as (Hb & _).
+    assert (HE : isError (getBlockSize (p_bsid (if p_bsid p0 =? 0 then FC.set_bsid p0 LZ4F_BLOCKSIZEID_DEFAULT else p0))) = false).
+    { destruct Hb as [Hb|Hb].
+      - rewrite Hb. reflexivity.
+      - replace (p_bsid p0 =? 0) with false by (symmetry; apply Z.eqb_neq; lia).
+        assert (Hc : p_bsid p0 = 4 \/ p_bsid p0 = 5 \/ p_bsid p0 = 6 \/ p_bsid p0 = 7) by lia.
+        destruct Hc as [->|[->|[->| ->]]]; reflexivity. }
+    rewrite HE. eexists _, _. reflexivity.
+  Qed.
+
+  Lemma frame_prefs_csize po n :
+    p_contentSize (eff_prefs (Some (compressFrame_prefs po n))) = 0 \/
+    p_contentSize (eff_prefs (Some (compressFrame_prefs po n))) = n.
+  Proof.
+    unfold eff_prefs, compressFrame_prefs. cbv zeta.
+    set (p0 := match po with Some p => p | None => prefs_null end).
+    destruct (negb (p_contentSize p0 =? 0)) eqn:E.
+    - right. repeat match goal with |- context [if ?c then _ else _] => destruct c end; reflexivity.
+    - left. apply negb_false_iff, Z.eqb_eq in E.
+      repeat match goal with |- context [if ?c then _ else _] => destruct c end; cbn; exact E.
+  Qed.
+
+  Lemma compressFrame_out c0 src cd po : prefs_opt_ok po -> len src < U64 ->
+    exists F c', compressFrame_usingCDict blk c0 src (match cd with Some d => Some (createCDict d) | None => None end) po = (Out F, c').
+  Proof.
+    intros Hpo Hn. pose proof (len_nonneg src) as H0.
+    pose proof (compressFrame_prefs_ok po (len src) Hpo ltac:(lia)) as Hp3.
+    set (p3 := compressFrame_prefs po (len src)) in *.
+    set (dk := match cd with Some d => UsingCDict d | None => NoDict end).
+    unfold compressFrame_usingCDict. cbv zeta. fold p3.
+    destruct (begin_out_cd c0 (Some p3) (match cd with Some d => Some (createCDict d) | None => None end) Hp3) as (hdr & c1 & HB).
+    rewrite HB.
+    assert (HB' : compressBegin c0 (Some p3) dk = (Out hdr, c1)) by (unfold dk; destruct cd; exact HB).
+    destruct (begin_inv strict_valid c0 (Some p3) dk hdr c1 Hp3 HB') as (p & maxb & Hp & Hnorm & Hmaxb & _ & HI).
+    pose proof (bsid_size_range _ _ Hmaxb) as Hmax.
+    destruct (FCI.update_out blk Hblk dk p maxb [] c1 [] src FC_LZ4B_COMPRESSED Hnorm Hmax HI) as (body & c2 & HU).
+    fold (compressUpdate blk c1 src) in HU. rewrite HU.
+    destruct (update_inv blk strict_valid Hblk strict_valid_ext dk p maxb [] c1 [] src FC_LZ4B_COMPRESSED body c2 Hnorm Hmax HI ltac:(intros _; reflexivity) HU)
+      as (bl' & _ & HI2). cbn [app] in HI2.
+    assert (Hcs : p_contentSize p = 0 \/ p_contentSize p = len src) by (rewrite Hp; apply frame_prefs_csize).
+    destruct (FCI.end_out blk Hblk dk p maxb src c2 bl' Hnorm Hmax HI2 Hn Hcs) as (tail & c3 & HE).
+    rewrite HE. eexists _, _. reflexivity.
+  Qed.
+
+  Theorem c4_frame_contract_b : forall skipcrc, frame_contract_b strict_valid skipcrc c4_frame.
+  Proof.
+    intros skipcrc p dict content (Hb & Hcs & Hc) HX.
+    destruct (cvf_ok p Hb Hc) as (Hn & _).
+    assert (Hpo : prefs_opt_ok (Some (cvf p))) by exact (proj1 Hn).
+    assert (Hl : len content < U64) by exact HX.
+    set (cd := match dict with [] => None | _ => Some dict end).
+    assert (Ecd : c4_frame p dict content
+                  = outb (fst (compressFrame_usingCDict blk cctx_zero content
+                                 (match cd with Some d => Some (createCDict d) | None => None end) (Some (cvf p)))))
+      by (unfold c4_frame, cd; destruct dict; reflexivity).
+    assert (Edk : match cd with Some d => d | None => [] end = dict) by (unfold cd; destruct dict; reflexivity).
+    destruct (compressFrame_out cctx_zero content cd (Some (cvf p)) Hpo Hl) as (F & c' & HF).
+    rewrite Ecd, HF. cbn [fst outb].
+    destruct (c07_compressFrame_conformant blk Hblk cctx_zero content cd (Some (cvf p)) F c' Hpo Hl HF) as (nb & HA).
+    rewrite Edk in HA. apply audit_sound in HA.
+    apply LZ4V.Proofs.FrameDChunk.frame_decode_skip_mono. exact HA.
+  Qed.
 End Instance.
